@@ -219,6 +219,15 @@ def run_config_reuse(out, drv, rng, tab, ctxs, cfg, fe):
         with warnings.catch_warnings():
             warnings.simplefilter("ignore")
             cobj = Config(cfg)
+        if len(tab["cols"]) >= 2 and rng.random() < 0.6:
+            # ... and before that on a table that LACKS one of the configured streams, through a front end of its own
+            # (a stream skips the calls of a column it does not have; the Config object must not remember that)
+            tab0 = copy.deepcopy(tab)
+            gone = rng.choice(sorted(tab0["cols"]))
+            del tab0["cols"][gone]
+            fe0 = rng.choice(sc.FRONTENDS)
+            case["before_that_run_on_a_table_without_stream"] = {"stream": gone, "frontend": fe0}
+            observed_records(fe0, tab0, cobj)
         observed_records(fe, tab, cobj)
         exp = expected_records(tab2, ctxs, masks)
         obs, probe = observed_records(fe, tab2, cobj)
